@@ -16,7 +16,7 @@ CLAIMS = {
     "C16": ("node codec: marshalProto and unmarshalProto verified element-wise inverse (keys, the four value fields, child links including absent ones) for every node shape, "
             "all type assertions and indices safe; protobuf transport assumed faithful",
             "proto.Marshal/Unmarshal assumed (trusted/proto.contracts); flush-before-publish is an obligation on Commit; that a flushed node object is complete and immutable rests on the assumed mast MakeRoot contract", "DESIGN §6 C16"),
-    "C20": ("New verified for every argument list: no panic, duplicated/unknown options rejected, numeric options parsed base 0 into the right field, registry changed only on success; convertSchema verified for an arbitrary parsed schema (key column = the declared PRIMARY KEY column, at most one key column, distinct names, no DEFAULT, index maps in column order); xConnect/xCreate hand the right arguments to New and a definition rejected at the declare step leaves no table registered (genuine defect found, replayed, fixed)",
+    "C20": ("New verified for every argument list: no panic, duplicated/unknown options rejected, numeric options parsed base 0 into the right field, registry changed only on success; convertSchema verified for an arbitrary parsed schema (key column = the declared PRIMARY KEY column, at most one key column, distinct names, no DEFAULT, index maps in column order); xConnect/xCreate hand the right arguments to New and a definition rejected at the declare step leaves no table registered (genuine defect found, replayed, fixed); NOT NULL on any column is enforced by Insert / Update (genuine defect found: it was declared but never enforced; replayed, fixed); UnquoteAll returns an option value as given or consumed to its end",
             "strings.SplitN, strconv.ParseInt assumed; UnquoteAll and the columns grammar (combinator parser: closures over mutable parser state) are outside the subset: what the parser returns for a given text is decided only by a bounded grammar run on the real code (labelled bounded)", "DESIGN §6 C20"),
     "C02": ("which columns a statement assigns (valuesToGo / xColumn no-change protocol), the row merge against the documented per-column rule M, the entry-level gate (update = documented kv join) "
             "and the write-time plumbing are verified for all inputs; the xColumn no-change defect was found, replayed at SQL level and fixed",
